@@ -225,6 +225,51 @@ fn op_sequences(rep: &mut Report) {
     rep.sig("ops-explored");
 }
 
+/// Threshold sweep: ranges that are almost empty, almost a full turn, or written with zeros of either sign.
+fn special_ranges(rep: &mut Report, base_case: u64) {
+    let ctors = [Ctor::Radians, Ctor::Degrees, Ctor::UpdateRange];
+    let lad: Vec<f64> = crate::common::ladder::ladder(&["constraints.rs"]).into_iter().filter(|d| *d >= 1e-8).collect();
+    let mut case = base_case;
+    let mut run = |rep: &mut Report, ctor: Ctor, joint: usize, f: f64, t: f64, a: f64, shift: f64, tag: &str| {
+        case += 1;
+        rep.transitions += 1;
+        match decide(ctor, joint, f, t, a, shift, Others::Wide) {
+            Ok(None) => rep.skipped_boundary += 1,
+            Ok(Some(v)) => rep.sig(format!("special:{tag}:{}:{}", if v { "accept" } else { "reject" }, ctor.name())),
+            Err((k, d)) => rep.fail(format!("{k}/{tag}"), case, case_json(ctor, joint, f, t, a, shift, Others::Wide), d),
+        }
+    };
+    for (ci, &ctor) in ctors.iter().enumerate() {
+        // zeros of either sign are the same number: from == to, every angle accepted
+        for (f, t) in [(-0.0f64, 0.0f64), (0.0, -0.0), (-0.0, -0.0)] {
+            for a in [0.0, 33.0, -180.0, 359.0, 1e-7] {
+                for joint in 0..6 {
+                    run(rep, ctor, joint, f, t, a, 0.0, "signed-zero");
+                }
+            }
+        }
+        for (di, &d) in lad.iter().enumerate() {
+            let dd = d.to_degrees();
+            let joint = (di + ci) % 6;
+            for base in [0.0f64, 35.0, -180.0, 170.0] {
+                // narrow arc [base, base + d] and its complement [base + d, base] (wrapping, almost a full turn)
+                for (f, t, tag) in [(base, base + dd, "narrow"), (base + dd, base, "almost-full-wrapping"), (base - 180.0 + dd, base + 180.0 - dd, "almost-full")] {
+                    if !(f != t) {
+                        continue;
+                    }
+                    let centre = if tag == "almost-full" { base + 180.0 } else { base };
+                    // probes: the middle of the narrow arc / of the excluded sliver, and points 1.5 d on either side of it
+                    let probes: [f64; 3] = if tag == "almost-full" { [0.0, -2.5 * d, 2.5 * d] } else { [0.5 * d, -1.5 * d, 2.5 * d] };
+                    for sh in probes {
+                        run(rep, ctor, joint, f, t, centre, sh, tag);
+                    }
+                }
+            }
+        }
+    }
+    rep.set("special_ranges", json!({"ladder_values": lad.len(), "kinds": ["signed-zero", "narrow", "almost-full-wrapping", "almost-full"]}));
+}
+
 pub fn run(ctx: &Ctx) -> Report {
     let step: i64 = if ctx.quick() { 5 } else { 2 };
     let lo = -720 / step;
@@ -270,6 +315,7 @@ pub fn run(ctx: &Ctx) -> Report {
         }
     });
     op_sequences(&mut rep);
+    special_ranges(&mut rep, n + 10_000);
     rep.traces_validated = rep.transitions;
     rep.rule = format!(
         "(from,to) on the {step}-degree lattice of [-720,720]^2 x angle on the same lattice (a third shifted by one of sqrt2*1e-3, -e*1e-3, pi*1e-2, -phi*1e-2, gamma*1e-4 rad) x \
